@@ -462,6 +462,14 @@ JUNK: list[tuple[str, str, str]] = [
     ('route', 'missing-value', 'route'),
     ('route', 'missing-next-hop', 'route 10.0.0.0/24'),
     ('route', 'missing-next-hop', 'route 10.0.0.0/24 med 5'),
+    ('route', 'missing-next-hop', 'route 10.0.0.0/24 label 1'),
+    ('route', 'missing-next-hop', 'route 10.0.0.0/24 rd 1:1 label 1'),
+    ('route', 'duplicate-keyword', 'route 10.0.0.0/24 next-hop 1.2.3.4 split /25'),
+    ('route', 'duplicate-keyword', 'route 10.0.0.0/24 next-hop 1.2.3.4 split /24'),
+    ('route', 'duplicate-keyword', 'route 10.0.0.0/24 next-hop 1.2.3.4 split /0'),
+    ('route', 'duplicate-keyword', 'route 10.0.0.0/24 next-hop 1.2.3.4 split /32 split /30'),
+    ('route', 'malformed-value', 'route 10.0.0.0/24 next-hop 1.2.3.4 split /33'),
+    ('route', 'malformed-value', 'route 10.0.0.0/24 next-hop 1.2.3.4 split /4294967296'),
     ('vpls', 'missing-next-hop', 'vpls endpoint 5 base 10 offset 1 size 8 rd 1:1'),
     ('vpls', 'missing-value', 'vpls endpoint 5 base 10 offset 1 rd 1:1 next-hop 1.2.3.4'),
     ('vpls', 'missing-value', 'vpls endpoint 5 base 10 size 8 rd 1:1 next-hop 1.2.3.4'),
@@ -508,8 +516,9 @@ for _t in ['attributes', 'attributes nlri', 'attributes next-hop 1.2.3.4 nlri', 
     JUNK.append(('attributes', 'missing-value', _t))
 
 
-# bgp-prefix-sid is left to the junk stream: its parser loops on an unclosed bracket and every hang costs a watchdog timeout
-VOCAB_KW = ['med', 'local-preference', 'community', 'large-community', 'extended-community', 'as-path', 'label', 'rd', 'path-information', 'aggregator', 'originator-id', 'cluster-list', 'aigp', 'origin', 'attribute', 'split', 'atomic-aggregate', 'withdraw', 'name', 'watchdog']
+# bgp-prefix-sid is left to the junk stream: its parser loops on an unclosed bracket and every hang costs a watchdog timeout;
+# split too: `route ::/0 split /25` is 33 554 432 routes, which is slow by design and not a parser fault
+VOCAB_KW = ['med', 'local-preference', 'community', 'large-community', 'extended-community', 'as-path', 'label', 'rd', 'path-information', 'aggregator', 'originator-id', 'cluster-list', 'aigp', 'origin', 'attribute', 'atomic-aggregate', 'withdraw', 'name', 'watchdog']
 VOCAB_VAL = ['0', '1', '255', '256', '65535', '65536', '1048576', '4294967295', '4294967296', '18446744073709551616', '-1', 'x', '1.2.3.4', '1.2.3.256', '1:1', '65536:1', '1:65536', '1:1:1', '4294967296:1:1', 'target:1:1', 'target:65536:65536', '1.2.3.4:5', '1:1.2.3.4', '0x10', '0x99', '0xc0', '0x0102', 'igp', '/25', '[', ']', '(', ')', ',', '{', '}', 'self']
 
 
@@ -564,7 +573,7 @@ def abstract(tok: str) -> str:
 
 DECODER_NOTES: dict[str, str] = {}  # exception of ExaBGP's decoder on a well-formed UPDATE -> first text
 
-KEYWORDS = set(VOCAB_KW) | {'next-hop', 'bgp-prefix-sid', 'bgp-prefix-sid-srv6', 'route-distinguisher', 'nlri', 'endpoint', 'base', 'offset', 'size', 'route', 'attributes', 'vpls', 'flow'}
+KEYWORDS = set(VOCAB_KW) | {'next-hop', 'split', 'bgp-prefix-sid', 'bgp-prefix-sid-srv6', 'route-distinguisher', 'nlri', 'endpoint', 'base', 'offset', 'size', 'route', 'attributes', 'vpls', 'flow'}
 
 
 def culprit(kind: str, text: str) -> str:
@@ -574,11 +583,9 @@ def culprit(kind: str, text: str) -> str:
         return 'flow ' + (m[-1] if m else 'route')
     if kind == 'vpls':
         return 'vpls'
-    last = kind
-    for t in text.split(' '):
-        if t in KEYWORDS:
-            last = t
-    return last
+    kws = [t for t in text.split(' ')[1:] if t in KEYWORDS]
+    other = [t for t in kws if t != 'next-hop']
+    return other[-1] if other else (kws[-1] if kws else kind)
 
 
 def junk_outcome(rig: fr.Rig, kind: str, text: str) -> tuple[str, str]:
@@ -617,25 +624,51 @@ def junk_outcome(rig: fr.Rig, kind: str, text: str) -> tuple[str, str]:
     return 'ok', ''
 
 
-def shrink_tokens(rig: fr.Rig, kind: str, text: str, fault: str) -> str:
-    """Drop runs of 4, 3, 2, 1 tokens (a keyword goes with its value, a list with its brackets) while
-    the verdict stays the same."""
+def token_groups(kind: str, text: str) -> tuple[list[str], list[list[str]]]:
+    """(head, groups): the head is `route <prefix>` (or the first word), a group is a keyword of the grammar
+    with everything up to the next keyword — a keyword is never separated from its value."""
     toks = text.split(' ')
-    keep = 2 if kind == 'route' else 1
+    nhead = 2 if kind == 'route' else 1
+    head, rest = toks[:nhead], toks[nhead:]
+    groups: list[list[str]] = []
+    for t in rest:
+        if t in KEYWORDS or not groups:
+            groups.append([t])
+        else:
+            groups[-1].append(t)
+    return head, groups
+
+
+def shrink_tokens(rig: fr.Rig, kind: str, text: str, fault: str) -> str:
+    """Drop whole keyword groups, then trailing value tokens of the groups that remain, while the
+    verdict stays the same."""
+    head, groups = token_groups(kind, text)
+
+    def render(gs: list[list[str]]) -> str:
+        return ' '.join(head + [t for g in gs for t in g])
+
     tries = 0
-    for width in (4, 3, 2, 1):
-        i = len(toks) - width
-        while i >= keep:
+    i = len(groups) - 1
+    while i >= 0:
+        tries += 1
+        if fault == 'hangs' and tries > 8:
+            return render(groups)
+        cand = groups[:i] + groups[i + 1 :]
+        if junk_outcome(rig, kind, render(cand))[0] == fault:
+            groups = cand
+        i -= 1
+    for gi in range(len(groups)):
+        while len(groups[gi]) > 1:
             tries += 1
             if fault == 'hangs' and tries > 8:
-                return ' '.join(toks)
-            cand = toks[:i] + toks[i + width :]
-            if junk_outcome(rig, kind, ' '.join(cand))[0] == fault:
-                toks = cand
-                i = min(i, len(toks) - width)
+                return render(groups)
+            cand = [list(g) for g in groups]
+            cand[gi] = cand[gi][:-1]
+            if junk_outcome(rig, kind, render(cand))[0] == fault:
+                groups = cand
             else:
-                i -= 1
-    return ' '.join(toks)
+                break
+    return render(groups)
 
 
 # ---------------------------------------------------------------------------------------------
